@@ -173,7 +173,7 @@ package factory
 
 //@ func (*PostProcessorRegistrationDelegate).applyPostProcessBeforeInstantiation
 //@ terminates
-//@ property C05 C09
+//@ property C05 C09 C12
 //@ requires [before-population] St[name] == 0
 //@ requires [processors-non-nil] ProcsOK(f)
 //@ assigns Failed
@@ -195,7 +195,7 @@ package factory
 
 //@ func (*PostProcessorRegistrationDelegate).ResolveAfterInstantiation
 //@ terminates
-//@ property C05 C09 C18
+//@ property C05 C09 C18 C12
 //@ requires [before-population] St[name] == 0
 //@ requires [processors-non-nil] ProcsOK(f)
 //@ requires [meta-built] MetaOK(meta)
@@ -464,7 +464,7 @@ package factory
 
 //@ func (*PostProcessorRegistrationDelegate).RegisterComponentPostProcessors
 //@ terminates
-//@ property C05 C09 C18
+//@ property C05 C09 C18 C12
 //@ requires [processor-given] f != nil && ps != nil && RawOK(f)
 //@ assigns f.hasInstantiationAwareComponentPostProcessor, f.hasDestructionAwareComponentPostProcessor, f.rawComponentPostProcessors
 //@ ensures [registered-last] len(f.rawComponentPostProcessors) == len(old(f.rawComponentPostProcessors)) + 1 && f.rawComponentPostProcessors[len(f.rawComponentPostProcessors) - 1] == ps && RawOK(f)
@@ -477,7 +477,7 @@ package factory
 // processor at its sorted position (the built-in placeholder / expression / validation stages are lazy).
 //@ func (*PostProcessorRegistrationDelegate).InvokeBeanFactoryPostProcessors
 //@ terminates
-//@ property C05 C09 C18
+//@ property C05 C09 C18 C12
 //@ requires [given] f != nil && factory != nil && RawOK(f) && ProcsOK(f)
 //@ requires [factory-processors-non-nil] forall(k, int, implies(0 <= k && k < len(factoryProcessors), factoryProcessors[k] != nil), factoryProcessors[k])
 //@ requires [no-live-threads] Joined <= Forks && forall(k, int, implies(k >= Forks, !ScanRecorded[k] && !ScanFailed[k]))
